@@ -87,7 +87,7 @@ JudgeRewrite(name, in, res) ==
     IF res.r = "unser" THEN << "SKIP" >>
     ELSE IF res.r = "err" THEN
         (IF name = "collect" /\ ~CollectFragment(in) THEN << "SKIP" >>
-         ELSE IF name \in {"collect", "expand", "expand_nc", "expand_p"} /\ ~NF(in).def THEN << "SKIP" >>
+         ELSE IF name \in {"collect", "expand", "expand_nc", "expand_p", "expand_reused"} /\ ~NF(in).def THEN << "SKIP" >>
          ELSE << "fails-on-fragment" >>)
     ELSE LET out == res.e
              vp == ValuePreserved(in, out)
@@ -95,9 +95,9 @@ JudgeRewrite(name, in, res) ==
                CASE name = "flatten" -> IF IsFlat(out) THEN "OK" ELSE "not-flat"
                  [] name = "fold"    -> IF AtMostOneConstant(out, {"Sum"}) THEN "OK"
                                         ELSE "several-constants"
-                 [] name = "cfold"   -> IF AtMostOneConstant(out, {"Sum", "Product"}) THEN "OK"
+                 [] name \in {"cfold", "cfold_reused"} -> IF AtMostOneConstant(out, {"Sum", "Product"}) THEN "OK"
                                         ELSE "several-constants"
-                 [] name = "expand"  ->
+                 [] name \in {"expand", "expand_reused"} ->
                         IF ~(NF(in).def /\ IsPolynomial(in) /\ NoNegPow(in)) THEN "OK"
                         ELSE IF ~Expanded(out) THEN "not-expanded"
                         ELSE IF LikeTermsMerged(out) = "NO" THEN "like-terms-not-merged"
